@@ -272,6 +272,10 @@ const ELLIPSIS: &str = "…";
 fn format_with_ellipsis<S: Into<String>>(inp: S, limit: usize) -> String {
     let inp = inp.into();
     if inp.chars().count() > limit {
+        if limit <= ELLIPSIS.chars().count() {
+            // too narrow for an ellipsis and a separating space: hard cut
+            return inp.chars().take(limit).collect();
+        }
         format!(
             "{str:.prelimit$}{ellipsis} ",
             str = inp,
